@@ -8,6 +8,12 @@ S2C  TLC enumerates collections (pairs / triples of small series, frames, bare a
      the column-set shapes) with the outcome expected for every join policy x fill method x column
      policy; each is replayed through df_index, df_reindex, df_sync and a presync-decorated recorder
      (named parameters; **kwargs, which shows the order in which the keywords arrive).
+SESS spec/SyncSess.tla + MC_SyncSess.tla: the caller's heap (timeseries objects, a container referring to them - one object
+     possibly at several places, objects built on one shared Index / columns object -, the fill-method object spelled None /
+     str / list / tuple) as a state machine: one action per public call (leaves the heap as it is; judged by the law on the
+     heap of that moment) plus the caller's in-place edits between calls (re-date / append / drop / overwrite an operand,
+     change or clear the method list, put another object into the container, edit the latest result).  TLC enumerates the
+     sessions, the driver replays each on ONE real heap and records outcome + heap after every step, Trace_Sync judges.
 C2S  seeded random collections (<= 6 timeseries over 30 timestamps, frames with 1-3 columns, nested
      lists / dicts of four classes with shuffled keys, non-timeseries members; separately bare arrays of
      lengths 0-6) are run through the same public calls and the log is validated by spec/Trace_Sync.tla.
@@ -651,10 +657,17 @@ def run(ctx):
     ctx.rule = ('S2C: TLC-enumerated collections x policy x method x column policy (ij / oj / lj / rj / explicit set / none) replayed through '
                 'df_sync, df_reindex, df_index and a presync-decorated recorder, == with the expected outcome (dict keys in their order, '
                 'containers with their class); TLC-enumerated histories of calls (call-time overrides) and derivations (.oj, .ffill ..) '
-                'on one presync-ed function replayed on one real object and judged by Trace_Sync; C2S: random collections and random '
-                'histories validated by Trace_Sync. '
+                'on one presync-ed function replayed on one real object and judged by Trace_Sync; TLC-enumerated SESSIONS on one heap of '
+                'caller-owned objects (families: two calls sharing every argument object incl. the method object spelled None / str / list / tuple; '
+                'operands built on one shared Index / columns object or placed twice, >= 3 inputs in every order, every entry point x ij / oj / lj / rj / '
+                'explicit index = one of the operands; frames under row x column policy; call ; in-place edit of an operand / the method list / the '
+                'container / the result ; the same or a colliding call; thorough: two-call sessions over the sharing family and TLC-simulated 6-step '
+                'sessions) replayed on ONE real heap, outcome and heap recorded after every step and judged by Trace_Sync (clauses '
+                'method_argument_changed / container_changed / operand_changed / result_aliases_argument / session_memory / session_<clause>); '
+                'C2S: random collections and random histories validated by Trace_Sync. '
                 'Non-trivial = the expected outcome differs from the input collection (something was reindexed, filled, cut or padded), '
-                'for a history: a call with an override is followed by another call; distinct by (collection, policy, method, columns) / history.')
+                'for a history: a call with an override is followed by another call, for a session: two or more steps, or an object placed twice / '
+                'built on another operand\'s Index object; distinct by (collection, policy, method, columns) / history.')
     report = Reporter(ctx)
     ctx.exhaustive = True
     if ctx.quick:
@@ -693,6 +706,11 @@ def run(ctx):
         'the dtype of a bare array (float64 / float32 / int64 / int32 / bool) is a rendering; named deviation BoolAsNumber: in a NaN-padded array True / False may be 1 / 0',
         'a presync-ed function is an object: call-time join= / method= / columns= hold for that call only; .ij/.oj/.lj/.rj/.ffill/.bfill are new objects; '
         'histories of 2 (thorough 3; random up to 6) steps on up to 4 objects, every call on the same argument objects',
+        'sessions: series / frames only (a bare array of the joint length comes back as the very same object - the statement promises no copy - so '
+        'results of array collections are not edited); the method object is None, a fill, or a list / tuple of ONE fill (a list as long as the '
+        'collection is read by pyg as one method per member: outside the quantifier); the caller\'s edits are rendered with pandas\' own in-place '
+        'operations (ts.index = .., ts.loc[t] = v, ts.drop(t, inplace = True), ts.iloc[p] = v); a call owns nothing of the caller: after every call '
+        'operands, container (same objects at the same places) and method object are compared with their state before the call',
         'a NaN cell is no observation: fill methods look for the last/next non-NaN one (also at timestamps the series has)',
         'frames under a fill method: both readings of "observation" (row / cell) are admitted',
         'bare arrays are 1-d; collections mixing arrays and timeseries are outside the quantifier',
